@@ -523,8 +523,30 @@ class _IndexToEnumerate(ast.NodeTransformer):
     body that can change X (a store to X or through it, a call on it with a mutating method) comes after the last read of `X[i]` and
     is followed by leaving the loop (so no later iteration sees the change -- the enumerate form works on a snapshot)."""
 
-    def __init__(self) -> None:
+    def __init__(self, sized: Optional[dict] = None) -> None:
         self.k = 0
+        self.sized = sized or {}  # local list name -> dump of N, for a local bound once to `[c] * N` and never resized
+
+    @staticmethod
+    def sized_locals(fn: ast.AST) -> dict:
+        binds: dict = {}
+        for n in ast.walk(fn):
+            if isinstance(n, ast.Name) and isinstance(n.ctx, (ast.Store, ast.Del)):
+                binds[n.id] = binds.get(n.id, 0) + 1
+        out: dict = {}
+        for n in ast.walk(fn):
+            if isinstance(n, ast.Assign) and len(n.targets) == 1 and isinstance(n.targets[0], ast.Name) and binds.get(n.targets[0].id) == 1 \
+                    and isinstance(n.value, ast.BinOp) and isinstance(n.value.op, ast.Mult):
+                for a, b in ((n.value.left, n.value.right), (n.value.right, n.value.left)):
+                    if isinstance(a, ast.List) and len(a.elts) == 1 and isinstance(a.elts[0], ast.Constant):
+                        out[n.targets[0].id] = ast.dump(b)
+        for n in ast.walk(fn):
+            if isinstance(n, ast.Call) and isinstance(n.func, ast.Attribute) and isinstance(n.func.value, ast.Name) and n.func.value.id in out \
+                    and n.func.attr in ("append", "insert", "pop", "extend", "remove", "clear"):
+                out.pop(n.func.value.id, None)
+            if isinstance(n, ast.Subscript) and isinstance(n.ctx, (ast.Store, ast.Del)) and isinstance(n.slice, ast.Slice) and isinstance(n.value, ast.Name):
+                out.pop(n.value.id, None)
+        return out
 
     @staticmethod
     def _chain(e: ast.AST) -> bool:
@@ -556,11 +578,38 @@ class _IndexToEnumerate(ast.NodeTransformer):
             return (x, True) if x is not None and self._chain(x) else None
         return None
 
+    def _match_sized(self, node: ast.For):
+        """`range(N)` / `range(N - 1, -1, -1)` over a local list of exactly N cells (`xs = [None] * N`) that the body indexes"""
+        it = node.iter
+        if not (isinstance(it, ast.Call) and isinstance(it.func, ast.Name) and it.func.id == "range" and not it.keywords and self.sized):
+            return None
+        a = it.args
+
+        def const(e, v):
+            if isinstance(e, ast.UnaryOp) and isinstance(e.op, ast.USub) and isinstance(e.operand, ast.Constant):
+                return -e.operand.value == v
+            return isinstance(e, ast.Constant) and e.value == v and not isinstance(e.value, bool)
+        if len(a) == 1 or (len(a) == 2 and const(a[0], 0)):
+            n_expr, desc = a[-1], False
+        elif len(a) == 3 and const(a[1], -1) and const(a[2], -1) and isinstance(a[0], ast.BinOp) and isinstance(a[0].op, ast.Sub) and const(a[0].right, 1):
+            n_expr, desc = a[0].left, True
+        else:
+            return None
+        nd = ast.dump(n_expr)
+        i = node.target.id if isinstance(node.target, ast.Name) else None
+        for n in ast.walk(ast.Module(body=node.body, type_ignores=[])):
+            if isinstance(n, ast.Subscript) and isinstance(n.ctx, ast.Load) and isinstance(n.value, ast.Name) and self.sized.get(n.value.id) == nd \
+                    and isinstance(n.slice, ast.Name) and n.slice.id == i:
+                return ast.Name(id=n.value.id, ctx=ast.Load()), desc
+        return None
+
     def visit_For(self, node: ast.For):
         self.generic_visit(node)
         if not isinstance(node.target, ast.Name) or node.orelse:
             return node
         mt = self._match(node.iter)
+        if mt is None:
+            mt = self._match_sized(node)
         if mt is None:
             return node
         x, desc = mt
@@ -656,7 +705,7 @@ def _as_load(t: ast.AST) -> ast.AST:
 
 def normalise_loops(fn: ast.FunctionDef) -> ast.FunctionDef:
     new = copy.copy(fn)
-    new.body = list(_IndexToEnumerate().visit(ast.Module(body=copy.deepcopy(list(fn.body)), type_ignores=[])).body)
+    new.body = list(_IndexToEnumerate(_IndexToEnumerate.sized_locals(fn)).visit(ast.Module(body=copy.deepcopy(list(fn.body)), type_ignores=[])).body)
     new.body = _rewrite_block(list(new.body))
     new = _Fuse().visit(copy.deepcopy(new))
     new = _KeysToItems().visit(new)
